@@ -318,6 +318,15 @@ func (h *clH) createPosition(pool uint64) {
 	default: // around the current tick
 		lo = cur - int64(e.R.N(int(width))) - int64(e.R.N(2))
 		hi = cur + 1 + int64(e.R.N(int(width)))
+		// boundary cases of the half-open range test and of the initial fee growth of a new tick
+		switch e.R.N(8) {
+		case 0:
+			lo = cur // lower tick exactly on the cursor: in range, fresh tick starts with the global growth
+		case 1:
+			hi = cur + 1 // upper tick just above the cursor
+		case 2:
+			hi, lo = cur, cur-width // upper tick exactly on the cursor: out of range (above)
+		}
 	}
 	if e.R.N(25) == 0 {
 		lo, hi = hi, lo // invalid order
@@ -347,6 +356,20 @@ func (h *clH) createPosition(pool uint64) {
 	r := resp.(*lptypes.MsgCreatePositionResponse)
 	e.Obs("ok id=%d base=%s quote=%s liq=%s", r.Id, r.AmountBase, r.AmountQuote, sdkmath.LegacyMustNewDecFromStr(r.Liquidity))
 	h.pos = append(h.pos, clPos{r.Id, pool, who, lo, hi})
+	// a position earns nothing from what happened before it existed: its claimable fees right after creation are empty
+	e.In("claimable %d", r.Id)
+	var cf sdk.Coins
+	cerr, cp := c.Call(func(ctx sdk.Context) error {
+		var err error
+		cf, err = c.App.LiquiditypoolKeeper.GetClaimableFees(ctx, r.Id)
+		return err
+	})
+	if ccls := class(cerr, cp); ccls == "ok" {
+		e.Obs("ok fees=%s", coinsStr(cf))
+		e.Oracle("fresh_position_claims_nothing", cf.IsZero(), "position %d claimable=%s right after creation", r.Id, coinsStr(cf))
+	} else {
+		e.Obs("%s", ccls)
+	}
 	if !(r.AmountBase.LTE(ab) && r.AmountQuote.LTE(aq)) {
 		e.Stat("deposit_above_desired") // observed: rounding up can charge desired+1; not part of any listed property
 	}
@@ -457,6 +480,7 @@ func (h *clH) swap(pool uint64) {
 		} else {
 			e.Obs("%s", qcls)
 		}
+		exactIn, exactSteps := exactSwapExactOut(c.Ctx(), k, pool, dir == 0, amt, fe)
 		preIn, preOut := c.Bal(sender, din), c.Bal(sender, dout)
 		e.In("swapOut %s %d %s %s %s %s", accName(who), pool, dout, amt, din, feB)
 		var in sdkmath.Int
@@ -477,6 +501,12 @@ func (h *clH) swap(pool uint64) {
 			e.Oracle("swap_in_eq_response", dIn.Equal(in), "resp=%s debited=%s", in, dIn)
 			e.Oracle("swap_out_le_stated", dOut.LTE(amt) && dOut.IsPositive(), "stated=%s credited=%s", amt, dOut)
 			e.Oracle("quote_eq_execute", qcls == "ok" && q.Equal(in), "quote=%s(%s) in=%s", q, qcls, in)
+			if exactIn != nil && dOut.Equal(amt) {
+				// the input charged is at least the exact amount (rounded down to a whole unit)
+				e.Oracle("in_ge_exact_curve", in.BigInt().Cmp(ratFloorInt(exactIn)) >= 0 && (exactIn.IsInt() || in.BigInt().Cmp(ratCeilInt(exactIn)) >= 0),
+					"in=%s exact=%s steps=%d", in, exactIn.FloatString(6), exactSteps)
+				e.Stat("exact_reference_compared_out")
+			}
 		} else {
 			e.Obs("%s", cls)
 		}
